@@ -737,6 +737,18 @@ inline bool levels_S(Rng& r, uint64_t idx)
   return ok && !run.failed;
 }
 
+// rejects every statement of one (harness) thread id, accepts everything else
+struct TidFilter : quill::Filter
+{
+  uint32_t reject_tid;
+  TidFilter(std::string name, uint32_t t) : quill::Filter(std::move(name)), reject_tid(t) {}
+  bool filter(quill::MacroMetadata const*, uint64_t, std::string_view, std::string_view, std::string_view, quill::LogLevel, std::string_view msg, std::string_view) noexcept override
+  {
+    Parsed p = parse_msg(std::string{msg});
+    return !p.ok || p.tid != reject_tid;
+  }
+};
+
 // mode F: logger level and sink thresholds are changed from another thread while several threads log; for a statement
 // either value that was current during the call interval is accepted ("interval rule")
 inline bool levels_F(Rng& r, uint64_t idx)
@@ -761,6 +773,10 @@ inline bool levels_F(Rng& r, uint64_t idx)
   recorder().clear();
   quill::Backend::start(w.bo);
   std::atomic<bool> stop{false};
+  // filters are attached while the statements flow (bursts of add_filter() calls, so that one lands while the backend is
+  // still taking over the previous one). Filter k rejects exactly the statements of harness thread 100+k, which only
+  // logs in the second phase - after everything is quiescent EVERY attached filter must be consulted.
+  std::atomic<uint32_t> filters_added{0};
   std::thread changer([&]
                       {
                         Rng cr{mix(idx, 991)};
@@ -768,6 +784,17 @@ inline bool levels_F(Rng& r, uint64_t idx)
                         {
                           w.loggers[0].lg->set_log_level(cr.chance(1, 2) ? la : lb);
                           for (uint32_t i = 0; i < ns; ++i) w.sinks[i]->set_log_level_filter(cr.chance(1, 2) ? sl[i].first : sl[i].second);
+                          if (cr.chance(1, 5) && filters_added.load() < 8)
+                          {
+                            uint32_t const burst = static_cast<uint32_t>(cr.range(1, 3));
+                            for (uint32_t b = 0; b < burst && filters_added.load() < 8; ++b)
+                            {
+                              uint32_t const k = filters_added.load();
+                              for (uint32_t i = 0; i < ns; ++i) w.sinks[i]->add_filter(std::make_unique<TidFilter>("g" + std::to_string(k), 100 + k));
+                              filters_added.store(k + 1);
+                              if (cr.chance(1, 2)) std::this_thread::sleep_for(std::chrono::microseconds(cr.below(30)));
+                            }
+                          }
                           std::this_thread::sleep_for(std::chrono::microseconds(cr.below(80)));
                         }
                       });
@@ -813,33 +840,55 @@ inline bool levels_F(Rng& r, uint64_t idx)
   for (auto& t : ts) t.th.join();
   stop.store(true);
   changer.join();
+  // second phase: quiescent, every threshold at its lowest; one statement per attached filter that this filter rejects
+  // (and one from a thread no filter knows)
+  uint32_t const nfilters = filters_added.load();
+  std::vector<Issue> phase2;
+  {
+    w.loggers[0].lg->flush_log(0);
+    w.loggers[0].lg->set_log_level(quill::LogLevel::TraceL3);
+    for (uint32_t i = 0; i < ns; ++i) w.sinks[i]->set_log_level_filter(quill::LogLevel::TraceL3);
+    for (uint32_t k = 0; k <= 8; ++k)
+    {
+      uint32_t const tid = k == 8 ? 99 : 100 + k;
+      for (uint32_t q = 0; q < 2; ++q) issue_std(phase2, w.loggers[0].lg, 0, quill::LogLevel::Critical, tid, q, 5);
+    }
+    w.loggers[0].lg->flush_log(0);
+  }
   quill::Backend::stop();
   g_delay.store(0);
   bool ok = true;
   std::vector<Issue> all;
   for (auto& t : ts) { all.insert(all.end(), t.issues.begin(), t.issues.end()); if (t.bad) ok = false; }
+  all.insert(all.end(), phase2.begin(), phase2.end());
   if (ok)
   {
     auto evs = recorder().snapshot();
     DeliverOpts o;
     o.prop = "C16";
     // the sink threshold is read when the backend processes the statement: either value may be in force
-    std::function<bool(Issue const&, uint32_t)> acc = [&](Issue const& is, uint32_t si) { return is.level >= sl[si].first; };
+    std::function<bool(Issue const&, uint32_t)> acc = [&](Issue const& is, uint32_t si)
+    {
+      if (is.tid >= 99) return is.tid == 99 || is.tid - 100 >= nfilters; // second phase: rejected iff its filter was attached
+      return is.level >= sl[si].first;
+    };
     o.sink_accepts = acc;
     // optional = between the two thresholds of SOME sink of the logger; checked per sink below
     o.may_be_missing = [&](Issue const& is)
     {
+      if (is.tid >= 99) return false;
       for (uint32_t si = 0; si < ns; ++si) if (is.level >= sl[si].first && is.level < sl[si].second) return true;
       return false;
     };
     ok = check_delivery(w, all, evs, o, "levels_F");
+    stat_add("levels_filters_attached_while_logging", nfilters);
     if (ok)
     {
       // a statement at or above a sink's higher threshold must be on that sink (may_be_missing above is per logger)
       EvIndex ix{w, evs};
       for (auto const& is : all)
         for (uint32_t si = 0; si < ns && ok; ++si)
-          if (is.level >= sl[si].second && !ix.write_g.count(std::make_tuple(si, is.tid, is.seq)))
+          if (is.tid < 99 && is.level >= sl[si].second && !ix.write_g.count(std::make_tuple(si, is.tid, is.seq)))
           {
             violation("C16", "statement-at-or-above-sink-level-not-written", J{}.unum("sink", si).str("level", level_name(is.level)).unum("tid", is.tid).unum("seq", is.seq).str("scenario", "levels_F"));
             ok = false;
